@@ -693,8 +693,8 @@ impl LpgStore {
                 }
             }
 
-            // Remove properties
-            drop(nodes); // Release lock before removing properties
+            // Remove properties. The node table stays locked so that a concurrent
+            // set_node_property cannot slip in between the index and the column update.
             drop(index);
             drop(node_labels);
             // Take the node out of every property index first (needs the old values)
@@ -702,6 +702,7 @@ impl LpgStore {
                 self.update_property_index_on_remove(id, &key);
             }
             self.node_properties.remove_all(id);
+            drop(nodes);
 
             // Note: Caller should use delete_node_edges() first if detach is needed
 
@@ -851,6 +852,12 @@ impl LpgStore {
     pub fn set_node_property(&self, id: NodeId, key: &str, value: Value) {
         let prop_key: PropertyKey = key.into();
 
+        // Reading the old value, updating the index and writing the new value
+        // must not interleave with another writer of this node (two writers
+        // would each retract the same old value and leave a stale index entry)
+        // nor with delete_node; the node table lock serialises them.
+        let mut nodes = self.nodes.write();
+
         // Update property index before setting the property (needs to read old value)
         self.update_property_index_on_set(id, &prop_key, &value);
 
@@ -858,7 +865,7 @@ impl LpgStore {
 
         // Update props_count in record
         let count = self.node_properties.get_all(id).len() as u16;
-        if let Some(chain) = self.nodes.write().get_mut(&id)
+        if let Some(chain) = nodes.get_mut(&id)
             && let Some(record) = chain.latest_mut()
         {
             record.props_count = count;
@@ -892,6 +899,9 @@ impl LpgStore {
     pub fn remove_node_property(&self, id: NodeId, key: &str) -> Option<Value> {
         let prop_key: PropertyKey = key.into();
 
+        // Serialised with other property writers of the node (see set_node_property)
+        let mut nodes = self.nodes.write();
+
         // Update property index before removing (needs to read old value)
         self.update_property_index_on_remove(id, &prop_key);
 
@@ -899,7 +909,7 @@ impl LpgStore {
 
         // Update props_count in record
         let count = self.node_properties.get_all(id).len() as u16;
-        if let Some(chain) = self.nodes.write().get_mut(&id)
+        if let Some(chain) = nodes.get_mut(&id)
             && let Some(record) = chain.latest_mut()
         {
             record.props_count = count;
